@@ -88,6 +88,37 @@ def check_property_on_impl(cap, hist):
     return None
 
 
+FALSY = [None, 0, "", False, (), 0.0]
+
+
+def check_falsy_values(cap, hist):
+    """the wrapped function may return ANY value (None, 0, '', False ...): results are still its results and it is
+    called exactly on the reference LRU's misses.  Returns None or a description."""
+    from visions.utils import cache as vc
+    calls = []
+    cur = [0]
+
+    def func(x):
+        calls.append(cur[0])
+        return FALSY[x % len(FALSY)]
+    wrapped = vc.lru_cache(hash_func=lambda x: x, max_length=cap)(func)
+    for i, k in enumerate(hist):
+        cur[0] = i
+        try:
+            v = wrapped(k)
+        except Exception as e:  # noqa
+            return f"call {i} (key {k}) raised {type(e).__name__} for a wrapped function returning {FALSY[k % len(FALSY)]!r}"
+        want = FALSY[k % len(FALSY)]
+        if v is not want and not (v == want and type(v) is type(want)):
+            return f"call {i} (key {k}): returned {v!r}, the wrapped function returns {want!r}"
+    exp = ref_lru(cap, hist)
+    misses = [i for i, e in enumerate(exp) if e[1] == i]
+    if calls != misses:
+        return (f"wrapped function returning {[FALSY[k % len(FALSY)] for k in sorted(set(hist))]!r} for keys {sorted(set(hist))}: it was called at calls {calls}, "
+                f"a reference LRU of capacity {cap} misses at calls {misses} (recomputation on a hit)")
+    return None
+
+
 def histories(tier, rnd):
     """Exhaustive histories over 4 keys up to length k for capacities 1..3, then random long ones."""
     kmax = 6 if tier == "quick" else 8
@@ -158,7 +189,7 @@ def replay(path):
     if "history" not in r:
         print("replay names a broken obligation, no input to re-run:", r.get("broken_obligations"))
         return 1
-    msg = check_property_on_impl(r["capacity"], r["history"])
+    msg = (check_falsy_values if r.get("value_function") == "falsy" else check_property_on_impl)(r["capacity"], r["history"])
     print("replay:", "property fails: " + msg if msg else "property holds on this input")
     return 1 if msg else 0
 
@@ -207,8 +238,25 @@ def run(args):
         if msg:
             failing = (cap, h, msg)
             break
+    falsy_fail = None
+    if not failing:
+        for cap, h in cases:
+            if len(h) > 5 and n_s2 % 7:
+                n_s2 += 1
+                continue
+            n_s2 += 1
+            msg = check_falsy_values(cap, h)
+            if msg:
+                falsy_fail = (cap, h, msg)
+                break
     run.cov["property_oracle_cases_on_impl"] = n_s2
-    if failing:
+    if falsy_fail:
+        cap, h, msg = falsy_fail
+        h = shrink(cap, h, lambda c, x: check_falsy_values(c, x) is not None)
+        run.violation({"capacity": cap, "history": h, "what": check_falsy_values(cap, h), "value_function": "falsy",
+                       "python": f"from visions.utils.cache import lru_cache; f=lru_cache(lambda x:x,{cap})(lambda x: {FALSY!r}[x % {len(FALSY)}]); [f(k) for k in {h}]",
+                       "broken_obligations": run.failed_obligations()})
+    elif failing:
         cap, h, msg = failing
         h = shrink(cap, h, lambda c, x: check_property_on_impl(c, x) is not None)
         msg = check_property_on_impl(cap, h)
